@@ -475,6 +475,7 @@ def big_scenario(seed, index, profile):
         for op in scn["ops"]:
             if op.get("r") is not None:
                 op["r"] = [x * scale if isinstance(x, (int, float)) and not isinstance(x, bool) else x for x in op["r"]]
+    scn["big"] = True
     return scn
 
 
